@@ -25,12 +25,17 @@ func (v *Vue) evalInclude(ctx VueContext, node *html.Node, vars map[string]any, 
 			maxIncludeDepth, ctx.FormatTemplateChain(), helpers.GetAttr(node, "include"))
 	}
 
+	includerDepth := len(ctx.stack.stack)
 	ctx.stack.Push(vars)
 	defer ctx.stack.Pop()
 
 	// Every include tag supplies the slot content of its own component instance. The scope
-	// that is in effect where the tag is written remains reachable as parent (see evalSlot).
+	// that is in effect where the tag is written remains reachable as parent (see evalSlot),
+	// and the content is evaluated with the variables visible there.
 	slotScope := extractSlotContent(node)
+	for _, content := range slotScope.Slots {
+		content.depth = includerDepth
+	}
 	slotScope.parent = ctx.SlotScope
 	ctx.SlotScope = slotScope
 
@@ -40,8 +45,11 @@ func (v *Vue) evalInclude(ctx VueContext, node *html.Node, vars map[string]any, 
 			for slotName, slotContent := range inheritedSlotScope.Slots {
 				if ctx.SlotScope.GetSlot(slotName) == nil {
 					// Only add if not already defined in the include tag
-					// Use the slot content directly (already parsed as DOM nodes)
-					ctx.SlotScope.SetSlot(slotName, slotContent)
+					// Use the slot content directly (already parsed as DOM nodes); it is
+					// evaluated with the variables of this include site, too.
+					handed := *slotContent
+					handed.depth = includerDepth
+					ctx.SlotScope.SetSlot(slotName, &handed)
 				}
 			}
 		}
